@@ -603,3 +603,55 @@ func VerifC02ZeroStruct() {
 		vassert(got.X == 0 && out == 0, "n receives the zero value of its input type when its only data predecessor was skipped")
 	}
 }
+
+// A node nothing leads to (no control and no data predecessor) in all-predecessor mode or in a Workflow: either
+// Compile refuses the graph, or the node never runs; it must not run on every scheduling step.
+func VerifC02Orphan() {
+	ctx := context.Background()
+	vcfg("fifo", 1)
+	vcfg("selectfirst", 1)
+	counts := map[string]int{}
+	body := func(key string) *Lambda {
+		return InvokableLambda(func(ctx context.Context, in map[string]any) (map[string]any, error) {
+			vMu.Lock()
+			counts[key]++
+			vMu.Unlock()
+			return map[string]any{key: 1}, nil
+		})
+	}
+	withOut := vchoose("orphanFeedsEnd", 2) == 1
+	var r Runnable[map[string]any, map[string]any]
+	var err, err2 error
+	if vchoose("workflow", 2) == 1 {
+		wf := NewWorkflow[map[string]any, map[string]any]()
+		wf.AddLambdaNode("a", body("a")).AddInput(START)
+		wf.AddLambdaNode("b", body("b")).AddInput("a")
+		wf.AddLambdaNode("x", body("x"))
+		e := wf.End().AddInput("b", ToField("b"))
+		if withOut {
+			e.AddInput("x", ToField("x"))
+		}
+		r, err = wf.Compile(ctx)
+		_, err2 = wf.Compile(ctx)
+	} else {
+		g := NewGraph[map[string]any, map[string]any]()
+		_ = g.AddLambdaNode("a", body("a"))
+		_ = g.AddLambdaNode("b", body("b"))
+		_ = g.AddLambdaNode("x", body("x"))
+		_ = g.AddEdge(START, "a")
+		_ = g.AddEdge("a", "b")
+		_ = g.AddEdge("b", END)
+		if withOut {
+			_ = g.AddEdge("x", END)
+		}
+		r, err = g.Compile(ctx, WithNodeTriggerMode(AllPredecessor))
+		_, err2 = g.Compile(ctx, WithNodeTriggerMode(AllPredecessor))
+	}
+	if err != nil {
+		vassert(err2 != nil, "a graph rejected because of a node nothing leads to is rejected on every attempt")
+		return
+	}
+	_, _ = r.Invoke(ctx, map[string]any{"in": 1})
+	vassert(counts["x"] <= 1, "a node nothing leads to executes at most once per run (if the graph is accepted at all)")
+	vassert(counts["a"] <= 1 && counts["b"] <= 1, "every node executes at most once per run")
+}
